@@ -271,7 +271,8 @@ def check_callable(item, acc):
 # classes
 
 CLASS_STYLES = ["plain", "slots", "dataclass", "namedtuple", "no_init", "user_new", "init_args"]
-CHILDREN = [None, "plain_noinit", "plain_init_args", "dbc_noinit", "dbc_init_args", "dbc_new", "plain_new"]
+CHILDREN = [None, "plain_noinit", "plain_init_args", "dbc_noinit", "dbc_init_args", "dbc_new", "plain_new",
+            "plain_grandchild", "dbc_grandchild", "plain_mixin_init"]  # constructor inherited by the class that is instantiated
 
 
 def render_class(style, inv, child, dbc, contracts):
@@ -282,7 +283,9 @@ def render_class(style, inv, child, dbc, contracts):
             {"C": "", "S": ", check_on=icontract.InvariantCheckEvent.SETATTR", "A": ", check_on=icontract.InvariantCheckEvent.ALL"}[c]) for c in inv)
     base = ("icontract.DBC" if contracts else "abc.ABC") if dbc else ""
     bs = "({})".format(base) if base else ""
-    members = ("    def pub(self, x):\n        return ('pub', x)\n    @property\n    def p(self):\n        return 7\n"
+    members = ("    def _get_q(self):\n        \"\"\"getter doc\"\"\"\n        return 8\n    def _set_w(self, value):\n        pass\n"
+               "    q = property(_get_q, None, None, 'the user doc of q')\n    w2 = property(fset=_set_w, doc='write-only doc')\n"
+               "    def pub(self, x):\n        return ('pub', x)\n    @property\n    def p(self):\n        \"\"\"doc of p\"\"\"\n        return 7\n"
                "    @staticmethod\n    def sm(x):\n        return ('sm', x)\n    @classmethod\n    def cm(cls, x):\n        return (cls.__name__, x)\n")
     if style == "namedtuple":
         w.append(deco + "class Root(typing.NamedTuple):\n    v: int = 1\n" + members)
@@ -320,6 +323,17 @@ def render_class(style, inv, child, dbc, contracts):
             if style == "namedtuple":
                 return None
             w.append("    def __new__(cls, *a, **k):\n        o = super().__new__(cls)\n        return o\n")
+        elif child.endswith("grandchild"):
+            if style in ("namedtuple", "dataclass"):
+                return None
+            # Child defines the constructor, GrandChild (the class instantiated) inherits it
+            w.append("    def __init__(self, z):\n        {}\n        self.z = z\nclass GrandChild(Child):\n    {}\n".format(
+                "super().__init__()" if style not in ("no_init",) else "self.v = 1", "__slots__ = ()" if style == "slots" else "pass"))
+        elif child.endswith("mixin_init"):
+            if style in ("namedtuple", "dataclass", "slots"):
+                return None
+            # the constructor comes from a mix-in listed before Root
+            w[-1] = "class Mixin:\n    def __init__(self, z):\n        self.v = 1\n        self.z = z\nclass Child(Mixin, Root):\n    pass\n"
     return "".join(w)
 
 
@@ -362,9 +376,20 @@ def class_script(ns, style, child):
         rec("type", lambda: type(r) is Root)
         if style == "user_new":
             rec("made", lambda: r.made)
+    rec("doc_p", lambda: Root.p.__doc__)
+    rec("doc_q", lambda: Root.q.__doc__)
+    rec("doc_w2", lambda: Root.w2.__doc__)
+    if child and child.endswith("grandchild"):
+        rec("GrandChild(3)", lambda: (ns["GrandChild"](3).z, ns["GrandChild"](3).v))
+        rec("GrandChild(z=3)", lambda: ns["GrandChild"](z=3).z)
+        rec("gc.pub", lambda: ns["GrandChild"](3).pub(1))
+    if child and child.endswith("mixin_init"):
+        rec("Mixed(3)", lambda: (ns["Child"](3).z, ns["Child"](3).v))
+        rec("mixed.pub", lambda: ns["Child"](3).pub(1))
+        return obs
     if child:
         Child = ns["Child"]
-        if child.endswith("init_args"):
+        if child.endswith("init_args") or child.endswith("grandchild"):
             rec("Child(3)", lambda: (Child(3).z, Child(3).v))
             rec("Child(z=3)", lambda: Child(z=3).z)
             rec("Child()", lambda: Child())
@@ -376,7 +401,7 @@ def class_script(ns, style, child):
                 rec("Child(4)", lambda: Child(4).v)
         c = None
         try:
-            c = Child(3) if child.endswith("init_args") else Child()
+            c = Child(3) if (child.endswith("init_args") or child.endswith("grandchild")) else Child()
         except Exception:
             pass
         if c is not None:
